@@ -31,20 +31,35 @@ def _ensure_ctx(workchain):
         workchain.ctx.simtrace = []
 
 
+def _launch_child(workchain, world, index):
+    child_cls = workchain.__class__._children[index]
+    child = workchain.launch(child_cls)
+    child._sim_label = f'c{index}.{len(world.children)}'
+    world.children.append(child)
+    world.parent_of[id(child)] = workchain
+    world.child_by_index.setdefault(index, []).append(child)
+    world.rec('launch', label(workchain), child._sim_label)
+    return child
+
+
 def _resolve_aref(workchain, world, aref, plumpy):
     if 'fut' in aref:
         future = asyncio.Future()
         world.futures[aref['fut']] = future
         world.rec('mkfut', label(workchain), aref['fut'])
+        pre = aref.get('pre')
+        if pre == 'value':
+            future.set_result(aref.get('v'))  # already complete when it is handed to the context
+        elif pre == 'exc':
+            exc = programs.ProgramError(f"future {aref['fut']} failed before it was awaited")
+            world.program_errors.append(exc)
+            world.awaitable_errors[aref['fut']] = exc
+            future.set_exception(exc)
         return future
-    index = aref['child']
-    child_cls = workchain.__class__._children[index]
-    child = workchain.launch(child_cls)
-    child._sim_label = f'c{index}.{len(world.children)}'
-    world.children.append(child)
-    world.child_by_index.setdefault(index, []).append(child)
-    world.rec('launch', label(workchain), child._sim_label)
-    return child
+    if 'child_ref' in aref:
+        children = world.child_by_index.get(aref['child_ref'])
+        return children[-1] if children else _launch_child(workchain, world, aref['child_ref'])
+    return _launch_child(workchain, world, aref['child'])
 
 
 def _make_wc_step(name, spec, world, plumpy):
@@ -63,6 +78,8 @@ def _make_wc_step(name, spec, world, plumpy):
                 awaitable = _resolve_aref(self, world, eff['ref'], plumpy)
                 awaited[eff['key']] = awaitable
                 self.to_context(**{eff['key']: awaitable})
+            elif kind == 'launchonly':
+                _launch_child(self, world, eff['child'])
             elif kind == 'ctxset':
                 self.ctx[eff['key']] = eff['v']
             else:
